@@ -2313,9 +2313,10 @@ def gen_aggregate_case(rng, cid):
             # kept next to the old grant; the other one may sit in another source): both are entries of their own
             n = rng.choice(names)
             uid = rng.randint(1, 3)
-            cl = crit_list(rng, pcrits)
-            f["trusted"].setdefault(n, []).append({"user-id": uid, "start": "2021-06-01", "end": "2022-06-15", "criteria": list(cl), "notes": notes()})
             tgt = f if (k == 0 or rng.random() < 0.5) else structs[sources[rng.randrange(k)]["url"]]
+            # (criteria both files define: an entry naming a criterion its own file does not define is skipped by the reader)
+            cl = crit_list(rng, BUILTINS + sorted(c_ for c_ in table if c_ in tgt.get("criteria", {})))
+            f["trusted"].setdefault(n, []).append({"user-id": uid, "start": "2021-06-01", "end": "2022-06-15", "criteria": list(cl), "notes": notes()})
             tgt["trusted"].setdefault(n, []).append({"user-id": uid, "start": "2022-06-15", "end": "2023-06-01", "criteria": list(cl), "notes": notes()})
             if tgt is not f:
                 for s_ in sources:
